@@ -947,3 +947,101 @@ def subsets(keys):
     keys = sorted(keys)
     n = len(keys)
     return [[keys[i] for i in range(n) if (m >> i) & 1] for m in range(1, (1 << n) - 1)]
+
+
+# ---------------------------------------------------------------------------------------------- class E (exact)
+RATIONAL_PTW = {"abs", "absolute", "sign", "unitstep", "clip"}
+
+
+def _dy_bits(x):
+    """significant bits of a dyadic float (None if |x| is not a small dyadic number)"""
+    from fractions import Fraction
+    f = Fraction(float(x))
+    if f == 0:
+        return 0
+    if f.denominator & (f.denominator - 1):
+        return None
+    return abs(f.numerator).bit_length() + (f.denominator.bit_length() - 1 if abs(f) < 1 else 0)
+
+
+def exact_bits(t):
+    """Upper bound on the significant bits of every intermediate entry when the tree is evaluated on inputs with <= 6
+    bits, or None if the tree is not a polynomial / piecewise-linear expression with dyadic constants.  With the bound
+    below 52 every float64 operation on the path (in any association order) is exact: class E applies."""
+    t = expand(t)
+    k = t["t"]
+
+    def cb(vals):
+        bs = [_dy_bits(v) for v in vals]
+        return None if any(b is None or b > 8 for b in bs) else max(bs + [1])
+    sub = [exact_bits(c) for c in children(t)]
+    if any(b is None for b in sub):
+        return None
+    if k == "var":
+        return 6
+    if k in ("add", "sub"):
+        return max(sub) + 1
+    if k == "mul":
+        return sub[0] + sub[1]
+    if k == "scale":
+        c = cb([t["c"]])
+        return None if c is None else sub[0] + c
+    if k == "addc":
+        c = cb(t["c"])
+        return None if c is None else max(sub[0], c) + 1
+    if k == "mulc":
+        c = cb(t["d"])
+        return None if c is None else sub[0] + c
+    if k == "ptw":
+        if t["f"] not in RATIONAL_PTW:
+            return None
+        c = cb(t["p"]) if t["p"] else 1
+        return None if c is None else max(sub[0], c)
+    if k == "lin":
+        c = cb([v for row in t["rows"] for v in row])
+        return None if c is None else sub[0] + c + max(t["n"], 1).bit_length()
+    if k == "sum":
+        return sub[0] + 3
+    if k == "vdot":
+        return sub[0] + sub[1] + 3
+    if k in ("getKey", "putKey"):
+        return sub[0]
+    if k == "chain":
+        # f is evaluated on g's output: its "input bits" are g's bits; bound by composition of the two bounds
+        fb, gb = exact_bits(t["f"]), exact_bits(t["g"])
+        return None if fb is None or gb is None else max(1, fb - 6) * 1 + gb * max(1, (fb + 5) // 6)
+    if k == "sqnorm":
+        return 2 * sub[0] + 3
+    if k == "quad":
+        c = cb(t["d"])
+        return None if c is None else 2 * sub[0] + c + 3
+    if k == "gauss":
+        c, d = cb(t["icov"]), cb(t["data"])
+        return None if c is None or d is None else 2 * (max(sub[0], d) + 1) + c + 3
+    if k == "bil":
+        return sub[0] + sub[1] + 4
+    return None
+
+
+def ship_q(t):
+    """tree with python floats -> exact rationals "p/q" (driver op linq)"""
+    from fractions import Fraction
+    q = lambda x: str(Fraction(float(x)))
+    t = expand(t)
+    if t["t"] == "bil":
+        m, na, nb, T, _ = bil_info(t)
+        return dict(t="bil", m=m, na=na, nb=nb, T=[[[q(x) for x in row] for row in mat] for mat in T],
+                    a=ship_q(t["a"]), b=ship_q(t["b"]))
+    r = {}
+    for k, v in t.items():
+        if k in ("a", "b", "f", "g") and isinstance(v, dict):
+            r[k] = ship_q(v)
+        elif k == "c" and t["t"] == "scale":
+            r[k] = q(v)
+        elif k in ("c", "d", "p", "data", "icov"):
+            r[k] = [q(x) for x in v]
+        elif k == "rows":
+            r[k] = [[q(x) for x in row] for row in v]
+        else:
+            r[k] = v
+    return r
